@@ -17,6 +17,7 @@ MUTANTS = [
     ('compute after print in sweep', [('mininec.main', "        m.f = args.frequency + k * args.frequency_increment\n        m.compute ()\n", "        m.f = args.frequency + k * args.frequency_increment\n")], ['ORDER.sweep', 'sweep']),
     ('cached far-field array divided in place', [(M + 'compute_far_field', "        self.ff_dist  = dist\n", "        self.ff_dist  = dist\n        if getattr (self, '_ffc', None) is None:\n            self._ffc = np.ones (3)\n        ffc = self._ffc\n        ffc /= 2\n")], ['no-inplace']),
     ('ground impedance computed once at construction', [(M + 'check_ground', "        else:\n            self.boundary = 'linear'", "        else:\n            self.boundary = 'linear'\n        self.media_z = [x.impedance (self.f) for x in (self.media or ())]")], ['frequency-state']),
+    ('power level kept in one local across the sweep', [('mininec.main', "            d = {}\n            if args.nf_power:\n                d ['pwr'] = args.nf_power\n            m.compute_near_field", "            if args.nf_power:\n                pwr_kept = args.nf_power\n            d = dict (pwr = pwr_kept) if pwr_kept else {}\n            m.compute_near_field"), ('mininec.main', "    for k in range (args.frequency_steps):\n", "    pwr_kept = None\n    for k in range (args.frequency_steps):\n")], ['ORDER.sweep']),
 ]
 MUTANTS = [m_ for m_ in MUTANTS if m_[2]]
 REFACTORS = [
